@@ -193,12 +193,20 @@ public:
     /**
      * @return If this cache is currenty empty.
      */
-    auto empty() const -> bool { return (m_open_list_end == 0); }
+    auto empty() const -> bool
+    {
+        std::lock_guard guard{m_lock};
+        return (m_open_list_end == 0);
+    }
 
     /**
      * @return The number of elements inside the cache.
      */
-    auto size() const -> size_t { return m_open_list_end; }
+    auto size() const -> size_t
+    {
+        std::lock_guard guard{m_lock};
+        return m_open_list_end;
+    }
 
     /**
      * @return The maximum capacity of this cache.
@@ -305,7 +313,7 @@ private:
     }
 
     /// Cache lock for all mutations if thread_safe is enabled.
-    mutex<thread_safe_type> m_lock;
+    mutable mutex<thread_safe_type> m_lock;
 
     /// The main store for the key value pairs and metadata for each e.
     std::vector<element> m_elements;
